@@ -376,6 +376,49 @@ def _f10d(vio):
         _axis_is_outer(vio)
 
 
+def _slice_items(vio):
+    op = _op_of(vio)
+    return op.get("items") or []
+
+
+def _empty_index_item(it):
+    if it.get("t") != "array":
+        return False
+    data = it.get("data")
+    if it.get("bool"):
+        flat = []
+
+        def rec(x):
+            if isinstance(x, list):
+                for y in x:
+                    rec(y)
+            else:
+                flat.append(x)
+        rec(data)
+        return not any(flat)
+    return isinstance(data, list) and len(data) == 0
+
+
+@mechanism("F45-empty-index-array")
+def _f45(vio):
+    items = _slice_items(vio)
+    return vio.get("kind") in ("wrong-value", "unexpected-error", "process-death", "value-differs",
+                               "outcome-kind-differs") and \
+        _op_of(vio).get("op") == "getitem" and any(_empty_index_item(it) for it in items)
+
+
+@mechanism("F46-jagged-index-on-nd-numpy")
+def _f46(vio):
+    return "NumpyArray::getitem_next_jagged" in str(vio.get("detail")) and "ndim == 2" in str(vio.get("detail"))
+
+
+@mechanism("F47-joint-advanced-through-option")
+def _f47(vio):
+    items = _slice_items(vio)
+    return vio.get("kind") in ("wrong-value", "value-differs") and _op_of(vio).get("op") == "getitem" and \
+        sum(1 for it in items if it.get("t") == "array") >= 2 and _has_class(vio, OPTC)
+
+
 @mechanism("F10-reduce-nonlocal")
 def _f10(vio):
     rep = _report(vio)
